@@ -136,9 +136,9 @@ Lemma nth_error_offsets_from sizes : forall o pre rest, sizes = pre ++ rest ->
   nth_error (offsets_from o sizes) (List.length pre) = Some (o + total pre).
 Proof.
   induction sizes as [|s r IH]; intros o pre rest H.
-  - destruct pre; [|discriminate]. cbn. rewrite total_nil. f_equal. lia.
+  - destruct pre; [|discriminate]. cbn. f_equal. lia.
   - destruct pre as [|x pre].
-    + cbn. rewrite total_nil. f_equal. lia.
+    + cbn. f_equal. lia.
     + cbn in H. injection H as -> H. cbn [List.length offsets_from nth_error].
       rewrite (IH (o + x) pre rest H), total_cons. f_equal. lia.
 Qed.
@@ -201,7 +201,8 @@ Lemma go_first_loop_finds offs start :
             (S i < List.length offs)%nat /\ offs_at offs i <= start < offs_at offs (S i).
 Proof.
   intros Hmono. induction fuel as [|f IH]; intros lo hi Hlt Hhi Hfuel Hlo Hhi'; [lia|].
-  pose proof (div2_bounds lo hi Hlt) as Hi. set (i := Nat.div2 (hi + lo)) in *.
+  pose proof (div2_bounds lo hi Hlt) as Hi. pose proof (Nat.div2_odd (hi + lo)) as Hodd.
+  remember (Nat.div2 (hi + lo)) as i eqn:Hi'.
   cbn [go_first_loop].
   assert (E1 : nth_error offs i = Some (offs_at offs i)) by (apply nth_error_nth'; lia).
   assert (E2 : nth_error offs (S i) = Some (offs_at offs (S i))) by (apply nth_error_nth'; lia).
@@ -210,8 +211,8 @@ Proof.
   - exists i. split; [reflexivity|]. split; [lia|]. lia.
   - destruct (Nat.eqb lo i) eqn:E4.
     + apply Nat.eqb_eq in E4. exfalso.
-      assert (hi = S i) by (pose proof (Nat.div2_odd (hi + lo)); fold i in H; destruct (Nat.odd (hi + lo)); cbn in H; lia).
-      subst hi. rewrite <- E4 in E3. lia.
+      assert (Hhi2 : hi = S i) by (destruct (Nat.odd (hi + lo)); cbn [Nat.b2n] in Hodd; lia).
+      rewrite E4 in Hlo. rewrite Hhi2 in Hhi'. lia.
     + apply Nat.eqb_neq in E4.
       destruct (offs_at offs (S i) <=? start) eqn:E5.
       * apply IH; try lia. pose proof (Hmono i (S i) ltac:(lia)). lia.
@@ -258,8 +259,7 @@ Proof.
   destruct (go_first_loop_finds (offsets sizes) start (offsets_mono sizes) (S (S (List.length sizes))) 0 (List.length sizes))
     as (i & Hf & Hi & Hin); try lia.
   - change 0%nat with (@List.length N []). rewrite (offsets_nth sizes [] sizes eq_refl), total_nil. lia.
-  - rewrite <- (app_nil_r sizes) at 2. rewrite (offsets_nth (sizes ++ []) sizes []); [|reflexivity].
-    rewrite app_nil_r. exact H.
+  - rewrite (offsets_nth sizes sizes []) by (symmetry; apply app_nil_r). exact H.
   - rewrite Nat.add_0_r in Hf. rewrite Hlen in Hi.
     destruct (split_at sizes i ltac:(lia)) as (pre & rest & Hs & Hl).
     destruct rest as [|s rest]; [rewrite app_nil_r in Hs; subst pre; lia|].
@@ -297,17 +297,16 @@ Proof.
       cbn [app]. symmetry. apply ref_from_nil_after. lia.
     + destruct (IH (pre ++ [s]) f wantPos wantEnd Hs' ltac:(cbn in Hfuel; lia) Hlt) as (l & Hscan & Hne).
       { intros _. rewrite total_snoc. destruct r as [|s2 r2]; cbn [hd]; lia. }
-      fold (offsets sizes) in *. unfold offsets in Hscan. rewrite <- Hlen in Hscan. rewrite Hscan.
+      unfold offsets in Hscan. rewrite Hscan. rewrite total_snoc in Hne.
       eexists. split; [reflexivity|]. cbn [nonempty filter]. fold (nonempty l). rewrite Hne.
       set (off := if total pre <? wantPos then wantPos - total pre else 0).
       assert (Hoff : off = N.max wantPos (total pre) - total pre) by (unfold off; destruct (total pre <? wantPos) eqn:E; lia).
       set (len := if wantEnd <? total pre + s then wantEnd - total pre - off else total pre + s - total pre - off).
       assert (Hlen' : len = N.min (wantPos + (wantEnd - wantPos)) (total pre + s) - N.max wantPos (total pre)).
       { unfold len. rewrite Hoff. destruct (wantEnd <? total pre + s) eqn:E; lia. }
-      rewrite Hlen, total_snoc.
       destruct (N.max wantPos (total pre) <? N.min (wantPos + (wantEnd - wantPos)) (total pre + s)) eqn:E3.
-      * destruct (0 <? len) eqn:E4; [|lia]. cbn [app]. rewrite Hoff, Hlen'. reflexivity.
-      * destruct (0 <? len) eqn:E4; [lia|]. reflexivity.
+      * destruct (0 <? len) eqn:E4; [|lia]. cbn [app]. rewrite Hoff, Hlen', <- Hlen. reflexivity.
+      * destruct (0 <? len) eqn:E4; [lia|]. rewrite <- Hlen. reflexivity.
 Qed.
 
 (* codec_agrees_gomanifest at the range level: for every block-size list (empty blocks anywhere) and every
